@@ -163,10 +163,10 @@ def observe(gen, n: int, limit: float = 5.0, count: bool = True):
     return ys, end
 
 
-def bounded_call(f):
-    """call(f) under the watchdog."""
+def bounded_call(f, seconds=None):
+    """call(f) under the watchdog (`seconds`: a more generous limit for cases known to be large)."""
     try:
-        with time_limit():
+        with (time_limit(seconds) if seconds else time_limit()):
             try:
                 return ("ok", f())
             except (RecursionError, HarnessTimeout):
